@@ -272,6 +272,81 @@ theorem C09_truthful_edit_old (notifyOn : Bool) (op : Op) (xs : List T) (e : Edi
         · simp only [Option.some.injEq] at h; subst h
           exact replEnts_old _ _ _
 
+/-- … and every reported `new` is the item found at that position after the call (insertions,
+moves, appended copies); removals report MISSING. (Slice assignment: `C09_truthful_edit_old` and the
+correspondence; its `new` side is not proved.) -/
+theorem C09_truthful_edit_new (op : Op) (xs : List T) (e : Edit)
+    (h : (match op with
+      | .insert i v => editInsert i v xs | .delIdx i => editDelIdx i xs | .remove a => editRemove a xs
+      | .delSlice a b st => editDelSlice a b st xs | .imul k => editIMul k xs
+      | .clear => editClear xs | .reverse => editReverse xs | .sort => editSort xs
+      | _ => none) = some e) :
+    ∀ x ∈ e.ents, x.2.2 = none ∨ x.2.2 = e.vals[x.1]? := by
+  cases op <;> simp only [] at h <;> try (cases h; done)
+  case insert i v =>
+    simp only [editInsert, Option.some.injEq] at h; subst h
+    intro x hx
+    simp only [List.mem_singleton] at hx; subst hx
+    right
+    simp only []
+    rw [insertAt_get]
+    unfold Pg.C08.insertPos
+    split <;> omega
+  case delIdx i =>
+    simp only [editDelIdx] at h; split at h
+    · cases h
+    · simp only [Option.some.injEq] at h; subst h; simp
+  case remove a =>
+    simp only [editRemove] at h; split at h
+    · cases h
+    · simp only [Option.some.injEq] at h; subst h; simp
+  case delSlice a b st =>
+    simp only [editDelSlice] at h; split at h
+    · cases h
+    · simp only [Option.some.injEq] at h; subst h
+      intro x hx
+      simp only [List.mem_map] at hx
+      obtain ⟨p, _, rfl⟩ := hx
+      exact Or.inl rfl
+  case imul k =>
+    simp only [editIMul] at h; split at h
+    · simp only [editClear, Option.some.injEq] at h; subst h
+      exact fun x hx => Or.inl (clearEnts_new 0 xs x hx)
+    · simp only [Option.some.injEq] at h; subst h
+      intro x hx
+      obtain ⟨h1, h2⟩ := appendEnts_new _ _ x hx
+      right
+      rw [h2, List.getElem?_append_right h1]
+  case clear =>
+    simp only [editClear, Option.some.injEq] at h; subst h
+    exact fun x hx => Or.inl (clearEnts_new 0 xs x hx)
+  case reverse =>
+    simp only [editReverse, Option.some.injEq] at h; subst h
+    exact fun x hx => Or.inr (movedEnts_new _ _ _ _ x hx)
+  case sort =>
+    simp only [editSort] at h; split at h
+    · simp only [Option.some.injEq] at h; subst h
+      exact fun x hx => Or.inr (movedEnts_new _ _ _ _ x hx)
+    · split at h
+      · simp only [Option.some.injEq] at h; subst h; simp
+      · cases h
+
+/-- Instance: `Dict.clear()` / `Dict.popitem()` (fix C09-F55) end in `finish` with one update per
+removed key; with notification on their events satisfy the contract. -/
+theorem C09_contract_keyedit (root : T) (recv : Path)
+    (f : List (Key × T) → Option (List (Key × T) × List (Key × Option T × Option T))) (m : Meta)
+    (items items' : List (Key × T)) (ents : List (Key × Option T × Option T))
+    (hg : getAt root recv = some (.node m .dict items)) (he : f items = some (items', ents))
+    (r' : T) (hr : r' = resetChain (mapAt (fun t => match t with
+          | .leaf a => .leaf a
+          | .node m k _ => .node m k items') root recv) recv) (hwf : WF r') :
+    (applyKeyEdit root recv true f).events.Perm
+      (specNotifs r' (ents.map fun x => ({ path := recv ++ [x.1], old := x.2.1, new := x.2.2 }, recv))) := by
+  subst hr
+  unfold applyKeyEdit
+  simp only [hg, he]
+  exact C09_contract_finish _ hwf _
+
 /-! ## Freshness of the memoised derived state -/
 
 /-- The values a call inserts carry no stale cache (they are fresh plain values). -/
